@@ -452,6 +452,7 @@ def _compose_qoperations(elem1, elem2):
             elem1.composite_system,
             hss,
             shape=elem2.shape,
+            eps_zero=elem2.eps_zero,
             is_physicality_required=is_physicality_required,
         )
         return mprocess
@@ -462,6 +463,7 @@ def _compose_qoperations(elem1, elem2):
             elem1.composite_system,
             hss,
             shape=elem1.shape,
+            eps_zero=elem1.eps_zero,
             is_physicality_required=is_physicality_required,
         )
         return mprocess
@@ -483,7 +485,7 @@ def _compose_qoperations(elem1, elem2):
         for state in elem2.states:
             new_state = compose_qoperations(elem1, state)
             new_states.append(new_state)
-        return StateEnsemble(new_states, elem2.prob_dist)
+        return StateEnsemble(new_states, elem2.prob_dist, eps_zero=elem2.eps_zero)
     elif type(elem1) == MProcess and type(elem2) == State:
         # -> State or StateEnsemble
         state_ensemble = _compose_qoperations_MProcess_State(elem1, elem2)
@@ -558,6 +560,7 @@ def _compose_qoperations_MProcess_MProcess(
         elem1.composite_system,
         hss,
         shape,
+        eps_zero=max(elem1.eps_zero, elem2.eps_zero),
         is_physicality_required=is_physicality_required,
     )
     return mprocess
